@@ -438,6 +438,8 @@ def expand_macro(mac, arg_toks):
 
 # ------------------------------------------------------------------------------------------------ crate model
 
+PRIM_SELF = ('u8', 'u16', 'u32', 'u64', 'u128', 'usize', 'i8', 'i16', 'i32', 'i64', 'i128', 'isize', 'bool', 'char', 'f32', 'f64')
+
 class FnItem:
     """one `fn` found in an impl block (after macro expansion)"""
     def __init__(self):
@@ -458,7 +460,7 @@ class FnItem:
         self.impl_consts = {}      # associated consts defined in the same impl: name -> (type toks, expr toks)
     @property
     def key(self):
-        st = ('r' if self.self_ref else '') + (self.self_kind or ('<' + self.self_text + '>'))
+        st = ('r' if self.self_ref else '') + (self.self_kind or (self.self_text if self.self_text in PRIM_SELF else '<' + self.self_text + '>'))
         if self.trait:
             return '%s::%s%s::%s' % (st, self.trait, ('<' + self.trait_args + '>') if self.trait_args else '', self.name)
         return '%s::%s' % (st, self.name)
